@@ -32,6 +32,53 @@ ENG = ['engine.c']
 check('C01', progs=[('chk_C01', [1, 2])], level='exploration', extra=ENG,
       floors={'result_codes': 5000, 'lines_err_ambiguous': 100, 'lines_err_args_too_long': 50, 'lines_blank': 50, 'holds_released_and_answered': 50, 'list_units': 100})
 check('C02', progs=[('chk_C02', [1])], level='exploration', floors={'lines': 1000, 'abbreviated_lines': 100, 'ambiguous_lines': 50, 'implicit_write_lines': 50})
+def c04_oracle_selftest(variants, seed):
+    """cross-check the digit-string numeric oracle against Python's arbitrary-precision int (20k numerals per run)"""
+    import random
+    rnd = random.Random(seed * 7919 + 13)
+    edges = [0, 1, 127, 128, 255, 256, 32767, 32768, 65535, 65536, 2**31 - 1, 2**31, 2**32 - 1, 2**32, 2**63 - 1, 2**63, 2**64 - 1, 2**64, 2**64 + 5, 10 * 2**64 + 7, 16 * 2**64 + 5, 10**30]
+    lines, expect = [], []
+    for _ in range(20000):
+        t = rnd.randrange(3); size = rnd.choice([1, 2, 4, 1, 2, 4, 3, 8])
+        v = (rnd.choice(edges) + rnd.randrange(-2, 3)) if rnd.random() < 0.6 else rnd.getrandbits(rnd.randrange(1, 90))
+        v = abs(v)
+        if rnd.random() < 0.05: v = int(''.join(rnd.choice('0123456789') for _ in range(rnd.randrange(20, 70))))
+        zeros = '0' * (rnd.randrange(30) if rnd.random() < 0.2 else 0)
+        if t == 2:
+            text = '0' + rnd.choice('xX') + zeros + (('%x' if rnd.random() < 0.5 else '%X') % v)
+            ok = size in (1, 2, 4) and v < 256 ** size; val = v
+        else:
+            sign = rnd.choice(['', '', '-', '+']) if t == 0 else (rnd.choice(['+', '-']) if rnd.random() < 0.03 else '')
+            text = sign + zeros + str(v)
+            if t == 0:
+                sv = -v if sign == '-' else v
+                ok = size in (1, 2, 4) and -(1 << (8 * size - 1)) <= sv <= (1 << (8 * size - 1)) - 1; val = sv % (256 ** size) if ok else 0
+            else:
+                ok = size in (1, 2, 4) and sign == '' and v < 256 ** size; val = v
+        if rnd.random() < 0.04:
+            text = text + rnd.choice(['x', '_', '-', '.', 'g']); ok = False
+            if t == 2 and text[-1] in 'abcdefABCDEF': continue
+        lines.append('%d %d %s' % (t, size, text)); expect.append((1 if ok else 0, val if ok else 0))
+    r = subprocess.run([variants[0]['bin'], '--oracle-selftest'], input='\n'.join(lines) + '\n', capture_output=True, text=True)
+    got = [tuple(int(x) for x in l.split()) for l in r.stdout.splitlines()]
+    bad = [(l, e, g) for l, e, g in zip(lines, expect, got) if e != g]
+    if len(got) != len(expect) or bad:
+        log('MACHINERY FAILURE: numeric oracle disagrees with Python int on %d of %d numerals, e.g. %s' % (len(bad), len(expect), bad[:3])); sys.exit(2)
+    return {'oracle_selftest_numerals_agreeing_with_python_int': len(expect)}
+
+ARGS = ['argcheck.c']
+check('C04', progs=[('chk_C04', [1])], level='exploration', extra=ARGS, pre=c04_oracle_selftest,
+      floors={'lines_judged': 50000, 'numeric_fields_accepted': 10000, 'numeric_fields_rejected': 10000},
+      assume=['the digit-string numeric oracle agrees with Python int on 20k numerals drawn on this run (checked, see coverage)'])
+check('C05', progs=[('chk_C05', [1])], level='exploration', extra=ARGS,
+      floors={'lines_judged': 50000, 'buffer_fields_accepted': 10000, 'buffer_fields_rejected': 10000, 'arguments_filling_variable_exactly': 1000, 'arguments_one_past_the_variable': 1000})
+check('C06', progs=[('chk_C06', [1, 2])], level='exploration',
+      floors={'write_lines_at_capacity_boundary': 20000, 'overlong_lines': 10000, 'read_test_pairs': 10000})
+check('C07', progs=[('chk_C07', [1])], level='exploration', floors={'round_trips': 50000, 'round_trips_at_exact_capacity': 5000})
+check('C08', progs=[('chk_C08', [1, 2])], level='exploration', extra=ENG,
+      floors={'twin_pairs': 20000, 'gating_lines': 20000, 'read_only_snapshot_comparisons': 1000000, 'write_only_positions_checked_zero': 1000})
+check('C09', progs=[('chk_C09', [1])], level='exploration',
+      floors={'lines': 100000, 'lines_touching_a_disabled_command': 20000, 'command_flag_flips': 10000, 'group_flag_flips': 3000, 'lines_executed': 20000, 'list_lines_checked': 10000})
 check('C10', progs=[('chk_C10', [1, 2])], level='exploration',
       floors={'sequences': 20000, 'command_lists': 500, 'handler_invocations_checked': 50000})
 check('C11', progs=[('chk_C11', [1, 2, 3, 8])], level='exploration', extra=ENG,
@@ -47,6 +94,8 @@ check('C15', progs=[('chk_C15', [1, 2, 3, 8])], level='exploration', extra=ENG,
 check('C18', progs=[('chk_C18', [1, 2, 3])], level='exploration', extra=ENG,
       floors={'busy_samples_inside_event_unit': 5000, 'busy_samples_with_open_unit': 20000, 'is_busy_idle_answers': 2000, 'is_hold_samples': 50000, 'holds_entered': 100})
 
+check('C19', progs=[('chk_C19', [1])], level='exploration',
+      floors={'test_texts_compared': 10000, 'test_texts_at_exact_fit': 2000, 'test_texts_one_short': 2000, 'lists_compared': 10000, 'lists_with_a_line_that_does_not_fit': 2000, 'dispatcher_cross_checks': 50000, 'test_events': 10000})
 check('C20', progs=[('chk_C20', [1])], level='exploration', extra=ENG,
       floors={'streams': 10000, 'units_style_checked': 50000, 'units_crlf': 10000})
 
@@ -252,10 +301,11 @@ def do_check(pid, tier):
         variants = build_variants(bdir, plain_variants(cfg))
     except RuntimeError as e:
         log(str(e)); sys.exit(2)
+    extra_cov = cfg['pre'](variants, seed) if 'pre' in cfg else None
     agg = run_shards(variants, tier, seed, os.path.join(bdir, 'work'), os.path.join(ROOT, 'evidence', 'replay'), scale=cfg.get('scale', {}).get(tier, 1))
     rule = run_info(variants[0], tier).get('rule', 'see DESIGN.md section 5, ' + pid)
     shutil.rmtree(os.path.join(bdir, 'work'), ignore_errors=True)
-    report_and_exit(pid, tier, seed, cfg['level'], agg, t0, cfg.get('floors', {}), rule, ASSUME + cfg.get('assume', []))
+    report_and_exit(pid, tier, seed, cfg['level'], agg, t0, cfg.get('floors', {}), rule, ASSUME + cfg.get('assume', []), extra_cov=extra_cov)
 
 # ----------------------------------------------------------------------------- replay
 def do_replay(path):
